@@ -6,6 +6,7 @@
      stop=K,exit=N     stop reading the message after K bytes, exit N
      tee               after recording, exec $NQV_HOME/bin/qmail-queue on copies of the streams */
 #include <fcntl.h>
+#include <sys/file.h>
 #include <signal.h>
 #include <stdio.h>
 #include <stdlib.h>
@@ -30,6 +31,33 @@ int main(void)
   const char *d = getenv("NQV_REC"), *plan = getenv("NQV_QQ_PLAN"); char base[600], fn[640]; struct timespec ts; int m, e, x = 0;
   if (!d) _exit(98);
   if (!plan) plan = "exit=0";
+  {
+    /* NQV_QQ_SEQ=<file>: one plan per line, the k-th invocation takes line k (counter in <file>.n, under flock);
+       invocations beyond the last line use NQV_QQ_PLAN */
+    const char *seq = getenv("NQV_QQ_SEQ");
+    if (seq) {
+      static char linebuf[512]; char cn[700]; int cf; long k = 0; FILE *f;
+      snprintf(cn, sizeof cn, "%s.n", seq);
+      cf = open(cn, O_RDWR | O_CREAT, 0666);
+      if (cf >= 0) {
+        char nb[32]; ssize_t r;
+        flock(cf, LOCK_EX);
+        r = pread(cf, nb, sizeof nb - 1, 0);
+        if (r > 0) { nb[r] = 0; k = atol(nb); }
+        snprintf(nb, sizeof nb, "%ld\n", k + 1);
+        pwrite(cf, nb, strlen(nb), 0);
+        close(cf);
+      }
+      f = fopen(seq, "r");
+      if (f) {
+        long i = 0;
+        while (fgets(linebuf, sizeof linebuf, f)) {
+          if (i++ == k) { size_t l = strlen(linebuf); if (l && linebuf[l - 1] == '\n') linebuf[l - 1] = 0; plan = linebuf; break; }
+        }
+        fclose(f);
+      }
+    }
+  }
   clock_gettime(CLOCK_MONOTONIC, &ts);
   snprintf(base, sizeof base, "%s/%020lld.%d", d, (long long) ts.tv_sec * 1000000000LL + ts.tv_nsec, (int) getpid());
   if (strstr(plan, "stop=")) stopafter = atol(strstr(plan, "stop=") + 5);
